@@ -477,6 +477,8 @@ def check_path_writable(path: str) -> bool:
     try:
         if path.endswith("\\") or path.endswith("/"):
             path = os.path.join(path, ".torrent")
+        # probe what a symbolic link points to, never remove the link itself
+        path = os.path.realpath(path)
         existed = os.path.exists(path)
         with open(path, "ab") as _:
             pass
